@@ -35,7 +35,8 @@ type wstate struct {
 	Defers []ast.Node // *ast.DeferStmt in registration order (persistent slice: never mutated in place)
 	flow   flowKind
 	label  string
-	at     ast.Node // node where the flow was produced (return statement, panic call ...)
+	at     ast.Node              // node where the flow was produced (return statement, panic call ...)
+	flags  map[types.Object]bool // boolean locals whose value is known on this path (assigned the literal true / false); never mutated in place
 }
 
 func (s *wstate) key() string {
@@ -48,11 +49,37 @@ func (s *wstate) key() string {
 	if s.flow != fNormal && s.at != nil {
 		fmt.Fprintf(&b, "@%d", s.at.Pos())
 	}
+	if len(s.flags) > 0 {
+		var fs []string
+		for o, v := range s.flags {
+			fs = append(fs, fmt.Sprintf("%d=%v", o.Pos(), v))
+		}
+		sort.Strings(fs)
+		b.WriteString("|" + strings.Join(fs, ","))
+	}
 	return b.String()
 }
 
+// setFlag returns the state with the boolean local o known to be v (known == false: not known any more).
+func (s *wstate) setFlag(o types.Object, v, known bool) *wstate {
+	if _, had := s.flags[o]; !had && !known {
+		return s
+	}
+	n := *s
+	n.flags = map[types.Object]bool{}
+	for k, x := range s.flags {
+		n.flags[k] = x
+	}
+	if known {
+		n.flags[o] = v
+	} else {
+		delete(n.flags, o)
+	}
+	return &n
+}
+
 func (s *wstate) with(u PState) *wstate {
-	return &wstate{U: u, Defers: s.Defers, flow: s.flow, label: s.label, at: s.at}
+	return &wstate{U: u, Defers: s.Defers, flow: s.flow, label: s.label, at: s.at, flags: s.flags}
 }
 
 type Walk struct {
@@ -158,7 +185,7 @@ func (w *Walk) deferredCall(d *ast.DeferStmt, st *wstate) []*wstate {
 		var res []*wstate
 		for _, o := range outs {
 			// a return inside the deferred literal only leaves the literal
-			res = append(res, &wstate{U: o.U})
+			res = append(res, &wstate{U: o.U, flags: o.flags})
 		}
 		return dedup(res)
 	}
@@ -203,7 +230,7 @@ func (w *Walk) expr(states []*wstate, e ast.Node) []*wstate {
 			var res []*wstate
 			for _, o := range outs {
 				if o.flow == fReturn {
-					o = &wstate{U: o.U, Defers: o.Defers}
+					o = &wstate{U: o.U, Defers: o.Defers, flags: o.flags}
 				}
 				res = append(res, o)
 			}
@@ -217,12 +244,12 @@ func (w *Walk) expr(states []*wstate, e ast.Node) []*wstate {
 		for _, s := range states {
 			if IsBuiltin(w.Info, x, "panic") {
 				for _, t := range w.event(s, x) {
-					out = append(out, &wstate{U: t.U, Defers: t.Defers, flow: fPanic, at: x})
+					out = append(out, &wstate{U: t.U, Defers: t.Defers, flow: fPanic, at: x, flags: t.flags})
 				}
 				continue
 			}
 			if w.Hazard != nil && w.Hazard(w, s.U, x) {
-				out = append(out, &wstate{U: s.U.Copy(), Defers: s.Defers, flow: fPanic, at: x})
+				out = append(out, &wstate{U: s.U.Copy(), Defers: s.Defers, flow: fPanic, at: x, flags: s.flags})
 			}
 			out = append(out, w.event(s, x)...)
 		}
@@ -341,6 +368,11 @@ func (w *Walk) refine(s *wstate, cond ast.Expr, val bool) []*wstate {
 			return dedup(out)
 		}
 	}
+	if id, isId := cond.(*ast.Ident); isId && w.Info != nil {
+		if v, known := s.flags[w.Info.Uses[id]]; known && v != val {
+			return nil // the flag has the other value on this path
+		}
+	}
 	if w.Branch == nil {
 		return []*wstate{s}
 	}
@@ -407,6 +439,38 @@ func (w *Walk) stmt(st ast.Stmt, states []*wstate) []*wstate {
 		n, o := splitFlow(states)
 		var out []*wstate
 		for _, s := range n {
+			// boolean locals assigned the literal true / false are known on this path; any other assignment forgets them
+			if w.Info != nil {
+				for i, l := range x.Lhs {
+					id, isId := l.(*ast.Ident)
+					if !isId || id.Name == "_" {
+						continue
+					}
+					obj := w.Info.Defs[id]
+					if obj == nil {
+						obj = w.Info.Uses[id]
+					}
+					if obj == nil {
+						continue
+					}
+					if b, isB := obj.Type().Underlying().(*types.Basic); !isB || b.Kind() != types.Bool {
+						continue
+					}
+					if len(x.Lhs) != len(x.Rhs) {
+						s = s.setFlag(obj, false, false)
+						continue
+					}
+					rhs, _ := ast.Unparen(x.Rhs[i]).(*ast.Ident)
+					switch {
+					case rhs != nil && (rhs.Name == "true" || rhs.Name == "false") && w.Info.Uses[rhs] != nil && w.Info.Uses[rhs].Parent() == types.Universe:
+						s = s.setFlag(obj, rhs.Name == "true", true)
+					case rhs != nil && w.Info.Uses[rhs] == obj:
+						// flag = flag
+					default:
+						s = s.setFlag(obj, false, false)
+					}
+				}
+			}
 			out = append(out, w.event(s, x)...)
 		}
 		return append(out, o...)
@@ -464,7 +528,7 @@ func (w *Walk) stmt(st ast.Stmt, states []*wstate) []*wstate {
 				nd := make([]ast.Node, len(t.Defers)+1)
 				copy(nd, t.Defers)
 				nd[len(t.Defers)] = x
-				out = append(out, &wstate{U: t.U, Defers: nd})
+				out = append(out, &wstate{U: t.U, Defers: nd, flags: t.flags})
 			}
 		}
 		return out
@@ -475,7 +539,7 @@ func (w *Walk) stmt(st ast.Stmt, states []*wstate) []*wstate {
 		var out []*wstate
 		for _, s := range n {
 			for _, t := range w.event(s, x) {
-				out = append(out, &wstate{U: t.U, Defers: t.Defers, flow: fReturn, at: x})
+				out = append(out, &wstate{U: t.U, Defers: t.Defers, flow: fReturn, at: x, flags: t.flags})
 			}
 		}
 		return append(out, o...)
@@ -488,9 +552,9 @@ func (w *Walk) stmt(st ast.Stmt, states []*wstate) []*wstate {
 		for _, s := range states {
 			switch x.Tok {
 			case token.BREAK:
-				out = append(out, &wstate{U: s.U, Defers: s.Defers, flow: fBreak, label: lbl, at: x})
+				out = append(out, &wstate{U: s.U, Defers: s.Defers, flow: fBreak, label: lbl, at: x, flags: s.flags})
 			case token.CONTINUE:
-				out = append(out, &wstate{U: s.U, Defers: s.Defers, flow: fContinue, label: lbl, at: x})
+				out = append(out, &wstate{U: s.U, Defers: s.Defers, flow: fContinue, label: lbl, at: x, flags: s.flags})
 			case token.FALLTHROUGH:
 				w.undec("fallthrough at %v", x.Pos())
 				out = append(out, s)
@@ -552,7 +616,7 @@ func absorbBreak(in []*wstate, label string) []*wstate {
 	var out []*wstate
 	for _, s := range in {
 		if s.flow == fBreak && (s.label == "" || s.label == label) {
-			out = append(out, &wstate{U: s.U, Defers: s.Defers})
+			out = append(out, &wstate{U: s.U, Defers: s.Defers, flags: s.flags})
 		} else {
 			out = append(out, s)
 		}
@@ -719,9 +783,9 @@ func (w *Walk) loop(x ast.Stmt, states []*wstate, label string) []*wstate {
 		for _, s := range res {
 			switch {
 			case s.flow == fNormal, s.flow == fContinue && (s.label == "" || s.label == label):
-				fall = append(fall, &wstate{U: s.U, Defers: s.Defers})
+				fall = append(fall, &wstate{U: s.U, Defers: s.Defers, flags: s.flags})
 			case s.flow == fBreak && (s.label == "" || s.label == label):
-				brk = append(brk, &wstate{U: s.U, Defers: s.Defers})
+				brk = append(brk, &wstate{U: s.U, Defers: s.Defers, flags: s.flags})
 			default:
 				other = append(other, s)
 			}
